@@ -466,8 +466,17 @@ def run_binding(idx, order):
         text = '\n'.join(lines[:4] + mine) + '\n'
     elif order == 1:
         text = '\n'.join(lines[:3] + mine + [lines[3]]) + '\n'        # packet rule before the key rule
-    else:
+    elif order == 2:
         text = SCHEMA_BIND
+    elif order == 3:
+        # the certificate's name also matches a rule written with literals that has no signer: the other match still counts
+        text = '\n'.join(lines[:3] + ['#lit: #site/"user"/"a"/"b"/#KEY'] + lines[3:]) + '\n'
+    else:
+        # the packet rule defined a second time with the same name pattern and the anchor as signer: both definitions count
+        text = SCHEMA_BIND + ''.join(ln.split('<=')[0] + '<= #anchor\n' for ln in mine)
+    by_anchor = order == 4
+    if by_anchor:
+        want = True if pname.split('/')[2] in ('data', 'doc', 'rec') and len(pname.split('/')) == {'data': 5, 'doc': 5, 'rec': 6}[pname.split('/')[2]] else want
     start = dt.datetime(2024, 1, 1)
     with owned_env(clock=Clock(), seed=15):
         with owned_random(('c14-bind', idx)):
@@ -475,7 +484,8 @@ def run_binding(idx, order):
             aname, anchor = sv2.self_sign(akn, pub_der('ec256_0'), signer_for('ec256_0', akn))
             ukn = enc.Name.from_str('/t/user/a/b/KEY/%02')
             uname, ucert = sv2.derive_cert(ukn, 'anchor', pub_der('ec256_1'), signer_for('ec256_0', aname), start, 3600 * 24)
-            pkt = bytes(enc.make_data(pname, enc.MetaInfo(freshness_period=1000), b'payload', signer_for('ec256_1', uname)))
+            pkt = bytes(enc.make_data(pname, enc.MetaInfo(freshness_period=1000), b'payload',
+                                      signer_for('ec256_0', aname) if by_anchor else signer_for('ec256_1', uname)))
     net = Net()
     try:
         net.stores.append({bytes(enc.Name.to_bytes(uname)): bytes(ucert)})
@@ -498,6 +508,47 @@ def run_binding(idx, order):
     finally:
         net.close()
     return viol, f'{got}'
+
+
+def run_storage(depth):
+    """a validator built with an explicit key storage that keeps nothing: every validation fetches the chain again, so a chain
+    that can no longer be retrieved no longer vouches (and the storage handed in is the one consulted)"""
+    from ndn.security.validator.cascade_validator import PublicKeyStorage
+    viol = []
+    calls = []
+
+    class Forgetful(PublicKeyStorage):
+        def load(self, name):
+            calls.append('load')
+            return None
+
+        def save(self, name, key_bits):
+            calls.append('save')
+    h = Hierarchy(depth, ['ec'] * depth, tag='st')
+    net = Net()
+    try:
+        net.serve(h)
+        val = lvs_validator(checker_for('linear'), net.app, h.anchor, Forgetful())
+        r1 = net.validate(val, h.packet)
+        if r1.get('v') is not True:
+            viol.append(('C14|storage|rejected-valid', f'intact chain of depth {depth} with a storage that keeps nothing: verdict {r1.get("v")}'))
+        if depth >= 2 and 'load' not in calls:
+            viol.append(('C14|storage|given-storage-not-consulted', f'depth {depth}: the key storage handed to lvs_validator was never asked'))
+        n1 = len(r1['requests'])
+        # the same again: everything is fetched again
+        r2 = net.validate(val, h.packet)
+        if r2.get('v') is not True or len(r2['requests']) != n1:
+            viol.append(('C14|storage|second-validation', f'depth {depth}: second validation verdict {r2.get("v")} with {len(r2["requests"])} fetches (first: {n1})'))
+        # now the certificates are gone from the network
+        net.stores, net.nacks = [], set(h.cert_names[1:])
+        r3 = net.validate(val, h.packet)
+        if depth >= 2 and r3.get('v') is not False:
+            viol.append(('C14|storage|accepted-unretrievable-chain', f'depth {depth}: with nothing cached and the certificates withdrawn the verdict is {r3.get("v")}'))
+        for f in net.loop.task_failures():
+            viol.append((f"C14|storage|task-error|{f['exception']}@{f['where']}", f'{f}'))
+    finally:
+        net.close()
+    return viol
 
 
 # -- isolation ---------------------------------------------------------------------------------------------------
@@ -577,6 +628,7 @@ def plan(tier, seed):
     units = [{'kind': 'chain', 'lo': lo, 'hi': min(len(cases), lo + 8), 'tier': tier} for lo in range(0, len(cases), 8)]
     units.append({'kind': 'constructor'})
     units.append({'kind': 'binding'})
+    units.append({'kind': 'storage'})
     seqs = list(iso_sequences(tier))
     units += [{'kind': 'isolation', 'lo': lo, 'hi': min(len(seqs), lo + 12), 'tier': tier} for lo in range(0, len(seqs), 12)]
     return {
@@ -608,8 +660,20 @@ def unit(arg):
             for sig, what in viol:
                 acc.violation(sig, what, {'kind': 'chain', 'case': case})
             acc.sample({'chain_case': case, 'verdict': key})
+    elif arg['kind'] == 'storage':
+        for depth in (1, 2, 3, 4):
+            viol = run_storage(depth)
+            acc.evaluations += 1
+            acc.transitions += 3
+            acc.nontrivial += 1
+            acc.state(('storage', depth))
+            acc.outcome(f"storage|{'ok' if not viol else 'viol'}")
+            acc.observe(['storage', depth, [v[0] for v in viol]])
+            for sig, what in viol:
+                acc.violation(sig, what, {'kind': 'storage', 'depth': depth})
+        acc.sample({'storage': 'explicit storage that keeps nothing, depths 1..4'})
     elif arg['kind'] == 'binding':
-        for order in (0, 1, 2):
+        for order in (0, 1, 2, 3, 4):
             for idx in range(len(BIND_PACKETS)):
                 viol, key = run_binding(idx, order)
                 acc.evaluations += 1
@@ -652,6 +716,8 @@ def unit(arg):
 def replay(case):
     if case['kind'] == 'chain':
         v, _ = run_chain(case['case'])
+    elif case['kind'] == 'storage':
+        v = run_storage(case['depth'])
     elif case['kind'] == 'binding':
         v, _ = run_binding(case['idx'], case['order'])
     elif case['kind'] == 'constructor':
